@@ -288,6 +288,8 @@ func FieldMenu() []FieldVariant {
 	add("F8-embedded", "Embedded `json:\"embedded\"` // @tag valid:\"exist\"", true)
 	add("F9-restate", "Restate string `json:\"same\" valid:\"required\"` // @tag valid:\"required\"", true)
 	add("F10-block-comment", "Block string `json:\"block\"` /* 说明 @tag valid:\"required\" */", true)
+	add("F10-block-comment-two-lines", "Block2 string `json:\"block2\"` /* @tag valid:\"required\"\n\t   the name is mandatory */", true)
+	add("F10-block-comment-tag-on-second-line", "Block3 string `json:\"block3\"` /* 说明\n\t   @tag valid:\"required\" form:\"b\"\n\t*/", true)
 	add("F11-doc+trailing", "// Doc mentions @tag form:\"doc\"\nDocAnd string `json:\"doc\"` // @tag valid:\"required\"", true)
 	add("F12-colon-value", "Gorm string `gorm:\"column:user_name\" json:\"g\"` // @tag valid:\"re='^a:b$'\"", true)
 	add("F13-same-comment", "SameA string `json:\"sa\"` // @tag valid:\"required\" form:\"trim\"", true)
